@@ -1,4 +1,4 @@
-CONSTANTS NK = 2 KeyCls <- Cls2 KeyTyp <- Typ2 Bytes = {65, 66} L = 32 MaxEv = 6 HalfGuard = TRUE
+CONSTANTS NK = 2 KeyCls <- Cls2 KeyTyp <- Typ2 Bytes = {64, 65} L = 32 MaxEv = 6 ErrPairs <- ErrFew HalfGuard = TRUE
 SPECIFICATION GSpec
 VIEW gview
 CONSTRAINT Dump
